@@ -678,6 +678,65 @@ type modInfo struct {
 }
 
 func (vc *VC) loopModifies(st *State, li *loopInfo) map[string]*modInfo {
+	// Receivers and arguments of calls that are re-read, in every iteration, from a field of a loop-invariant object
+	// (c.Binder.SetConfig(...)) are provisionally taken to be the value the field has on loop entry, which makes the
+	// callee's frame a fixed location instead of "anything". That is only right if nothing in the loop can write that
+	// field: if the finished modifies-set contains the field's array after all, the computation is redone without
+	// the provision.
+	vc.provisionalLoads = map[string]bool{}
+	vc.curLoop = li
+	out := vc.loopModifiesOnce(st, li)
+	for arr := range vc.provisionalLoads {
+		if _, modified := out[arr]; modified {
+			vc.provisionalLoads = nil
+			out = vc.loopModifiesOnce(st, li)
+			break
+		}
+	}
+	vc.curLoop = nil
+	return out
+}
+
+// provisionalFieldLoad: v = *(&obj.f) inside the current loop with obj defined outside it: the field's value on entry.
+func (vc *VC) provisionalFieldLoad(st *State, v ssa.Value) (Term, bool) {
+	li := vc.curLoop
+	if li == nil || vc.provisionalLoads == nil {
+		return "", false
+	}
+	u, ok := v.(*ssa.UnOp)
+	if !ok || u.Op != token.MUL {
+		return "", false
+	}
+	fa, ok := u.X.(*ssa.FieldAddr)
+	if !ok {
+		return "", false
+	}
+	if ins, ok := fa.X.(ssa.Instruction); ok && li.blocks[ins.Block()] {
+		return "", false
+	}
+	obj, ok := st.vals[fa.X]
+	if !ok || obj.T == "" {
+		return "", false
+	}
+	pt, ok := types.Unalias(fa.X.Type()).Underlying().(*types.Pointer)
+	if !ok {
+		return "", false
+	}
+	stt, ok := types.Unalias(pt.Elem()).Underlying().(*types.Struct)
+	if !ok {
+		return "", false
+	}
+	f := stt.Field(fa.Field)
+	arr, sub := fieldArr(pt.Elem(), f)
+	if sub {
+		return "", false
+	}
+	vc.provisionalLoads[arr] = true
+	s := sortOf(f.Type())
+	return app("select", vc.hget(st.heap, arr, arrSort(s)), obj.T), true
+}
+
+func (vc *VC) loopModifiesOnce(st *State, li *loopInfo) map[string]*modInfo {
 	out := map[string]*modInfo{}
 	add := func(arr string, s Sort, base Term, invariant, scalar bool) {
 		m := out[arr]
